@@ -3,6 +3,7 @@ package parser
 import (
 	"fmt"
 	"slices"
+	"strconv"
 	"time"
 
 	"gopkg.in/yaml.v3"
@@ -277,15 +278,16 @@ func (r Rule) IsIdentical(b Rule) bool {
 		return false
 	}
 
+	// The same value means something else under another comment type (rule/owner X vs disable X).
 	ac := make([]string, 0, len(r.Comments))
 	for _, c := range r.Comments {
-		ac = append(ac, c.Value.String())
+		ac = append(ac, strconv.Itoa(int(c.Type))+" "+c.Value.String())
 	}
 	slices.Sort(ac)
 
 	bc := make([]string, 0, len(r.Comments))
 	for _, c := range b.Comments {
-		bc = append(bc, c.Value.String())
+		bc = append(bc, strconv.Itoa(int(c.Type))+" "+c.Value.String())
 	}
 	slices.Sort(bc)
 
